@@ -504,6 +504,21 @@ func (tt *TermTable) cmp(op Op, a, b *Term) *Term {
 	if a == b {
 		return tt.Bool(op == OpUle || op == OpSle)
 	}
+	// cheap unsigned range analysis
+	if a.w <= 64 && (op == OpUlt || op == OpUle) {
+		if b.op == OpConst {
+			ua := tt.ub(a, 0)
+			if (op == OpUlt && ua < b.c) || (op == OpUle && ua <= b.c) {
+				return tt.tTrue
+			}
+		}
+		if a.op == OpConst {
+			ubb := tt.ub(b, 0)
+			if (op == OpUlt && a.c >= ubb) || (op == OpUle && a.c > ubb) {
+				return tt.tFalse
+			}
+		}
+	}
 	// comparisons of zero-extended narrow values against constants
 	if b.op == OpConst && a.op == OpZext {
 		iw := a.a[0].w
@@ -582,6 +597,52 @@ func (tt *TermTable) cmp(op Op, a, b *Term) *Term {
 		}
 	}
 	return tt.mk(op, 0, 0, "", a, b, nil)
+}
+
+// ub returns an upper bound of t as an unsigned value.
+func (tt *TermTable) ub(t *Term, depth int) uint64 {
+	m := mask(t.w)
+	if depth > 6 {
+		return m
+	}
+	switch t.op {
+	case OpConst:
+		return t.c
+	case OpZext:
+		return tt.ub(t.a[0], depth+1)
+	case OpLshr:
+		if t.a[1].op == OpConst {
+			if t.a[1].c >= uint64(t.w) {
+				return 0
+			}
+			return tt.ub(t.a[0], depth+1) >> t.a[1].c
+		}
+	case OpBAnd:
+		x, y := tt.ub(t.a[0], depth+1), tt.ub(t.a[1], depth+1)
+		if x < y {
+			return x
+		}
+		return y
+	case OpIte:
+		x, y := tt.ub(t.a[1], depth+1), tt.ub(t.a[2], depth+1)
+		if x > y {
+			return x
+		}
+		return y
+	case OpURem:
+		if t.a[1].op == OpConst && t.a[1].c > 0 {
+			return t.a[1].c - 1
+		}
+	case OpExtract:
+		lo := uint16(t.c & 0xffff)
+		if lo == 0 {
+			x := tt.ub(t.a[0], depth+1)
+			if x < m {
+				return x
+			}
+		}
+	}
+	return m
 }
 
 func (tt *TermTable) Ult(a, b *Term) *Term { return tt.cmp(OpUlt, a, b) }
